@@ -24,3 +24,13 @@ package appctlcommon
 //@     invariant 0 <= i && i <= len(users)
 //@     invariant len(users) == old(len(users)) && users == old(users)
 //@     invariant !keepPlaintext ==> forall(k, 0, i, users[k] != nil ==> pbs(users[k].Password) == "")
+
+//@ // Validation of the static DNS table never panics (C20: malformed configuration is rejected
+//@ // with an error): every index, nil and map obligation of the function is discharged for every
+//@ // table - an empty host name included.
+//@ func TransformDNSHosts(dns *pb.DNS) (m map[string]net.IP, err error)
+//@   property C20
+//@   mode int
+//@   noframe
+//@   loop 1:
+//@     invariant true
